@@ -185,6 +185,14 @@ class Collector:
 
     def run_case(self, case):
         self.evals += 1
+        _publish_case(case)
+        try:
+            self._run_case(case)
+        finally:
+            if _WATCH["hb"] is not None:
+                _WATCH["hb"].value = 0.0
+
+    def _run_case(self, case):
         try:
             info = self.part.run(case) or {}
         except Skip:
@@ -229,6 +237,125 @@ def _hyp_settings(n):
         suppress_health_check=[HealthCheck.too_slow, HealthCheck.data_too_large, HealthCheck.large_base_example],
         print_blob=False,
     )
+
+
+# Wall-clock watchdog.  The deterministic step budget decides termination of Python code; a hang
+# INSIDE C code (e.g. catastrophic backtracking in the regex engine) fires no line events, holds
+# the GIL and cannot be interrupted by a signal handler or seen by a thread of the same process.
+# Each shard therefore publishes a heartbeat (shared double, time the current case started) and
+# the current case (a small file, rewritten per case); the PARENT watches: when one case has been
+# running for CASE_WALL seconds the shard is killed and the case is re-run alone in a fresh
+# process with CONFIRM_WALL seconds; only if that does not finish either is it reported as
+# non-terminating (typical cases take milliseconds, so these bounds leave 4-5 orders of
+# magnitude of slack); if the fresh process finishes, the shard is inconclusive (exit 2).
+_WATCH = {"hb": None, "file": None}
+CASE_WALL = float(os.environ.get("VERIF_CASE_WALL", "60"))
+CONFIRM_WALL = float(os.environ.get("VERIF_CONFIRM_WALL", "120"))
+
+
+def _publish_case(case):
+    f = _WATCH["file"]
+    if f is not None:
+        f.seek(0)
+        f.write(json.dumps(case, default=repr))
+        f.truncate()
+        f.flush()
+    if _WATCH["hb"] is not None:
+        _WATCH["hb"].value = time.time()
+
+
+def _shard_main(args, base, hb):
+    import pickle
+
+    _WATCH["hb"] = hb
+    _WATCH["file"] = open(base + ".case.json", "w")
+    res = _run_shard(args)
+    hb.value = 0.0
+    with open(base + ".pkl", "wb") as f:
+        pickle.dump(res, f)
+
+
+def _confirm_hang(job, base):
+    """The shard was killed because one case ran too long: re-run that case alone."""
+    import subprocess
+
+    modname, part_name = job[0], job[1]
+    mod = __import__(modname, fromlist=["x"])
+    prop = mod.PROPERTY
+    try:
+        with open(base + ".case.json") as f:
+            case = json.load(f)
+    except Exception:
+        return {"part": part_name, "error": "a shard exceeded the per-case wall clock and its current case could not be read (inconclusive)"}
+    body = {
+        "property": prop,
+        "part": part_name,
+        "signature": f"{part_name}:nontermination-wallclock",
+        "detail": f"case did not finish within {CASE_WALL:.0f} s in its shard nor within {CONFIRM_WALL:.0f} s alone in a fresh process (no line events: the time is spent inside C code)",
+        "case": case,
+    }
+    path = base + ".hangcase.json"
+    with open(path, "w") as f:
+        json.dump(body, f, default=repr)
+    try:
+        subprocess.run([sys.executable, "-m", "vlib.run", modname.rsplit(".", 1)[1], "--replay-inner", path], cwd=VERIF_DIR, timeout=CONFIRM_WALL, capture_output=True)
+    except subprocess.TimeoutExpired:
+        return {"part": part_name, "error": None, "hang": body}
+    return {"part": part_name, "error": "a case exceeded the per-case wall clock in its shard but finished alone in a fresh process (inconclusive):\n" + json.dumps(body)[:1500]}
+
+
+def _run_jobs(jobs, ncpu):
+    """Run every shard in its own process (at most ncpu at a time); returns list of results."""
+    import pickle
+    import shutil
+    import tempfile
+    from multiprocessing import get_context
+
+    ctx = get_context("fork")
+    tmp = tempfile.mkdtemp(prefix="vlib_run_")
+    try:
+        pending = list(enumerate(jobs))
+        running = {}
+        results = [None] * len(jobs)
+        confirmed_parts = set()  # parts with a confirmed hang: further over-time shards are just stopped
+        while pending or running:
+            while pending and len(running) < ncpu:
+                i, job = pending.pop(0)
+                hb = ctx.Value("d", 0.0, lock=False)
+                p = ctx.Process(target=_shard_main, args=(job, os.path.join(tmp, str(i)), hb))
+                p.start()
+                running[i] = (p, hb)
+            time.sleep(0.02)
+            now = time.time()
+            for i, (p, hb) in list(running.items()):
+                base = os.path.join(tmp, str(i))
+                if p.exitcode is None:
+                    if hb.value and now - hb.value > CASE_WALL:
+                        p.kill()
+                        p.join()
+                        del running[i]
+                        if jobs[i][1] in confirmed_parts:
+                            results[i] = {"part": jobs[i][1], "error": None, "hang_dup": True}
+                        else:
+                            results[i] = _confirm_hang(jobs[i], base)
+                            if results[i].get("hang"):
+                                confirmed_parts.add(jobs[i][1])
+                                # cases of this part not started yet would only repeat the finding
+                                pending = [(j, jb) for j, jb in pending if jb[1] != jobs[i][1]]
+                                for j in range(len(jobs)):
+                                    if results[j] is None and j not in running and jobs[j][1] == jobs[i][1]:
+                                        results[j] = {"part": jobs[j][1], "error": None, "hang_dup": True}
+                    continue
+                p.join()
+                del running[i]
+                if os.path.exists(base + ".pkl"):
+                    with open(base + ".pkl", "rb") as f:
+                        results[i] = pickle.load(f)
+                else:
+                    results[i] = {"part": jobs[i][1], "error": f"shard process died with exit code {p.exitcode}"}
+        return results
+    finally:
+        shutil.rmtree(tmp, ignore_errors=True)
 
 
 def _run_shard(args):
@@ -354,14 +481,15 @@ def shrink_case(part, case, sig, budget_s=120):
 # ------------------------------------------------------------------------------ main driver
 
 
-def run_check(mod, tier="quick", seed=1, replay=None, only_part=None):
-    from multiprocessing import get_context
+def run_check(mod, tier="quick", seed=1, replay=None, only_part=None, replay_inner=None):
 
     prop = mod.PROPERTY
     t0 = time.time()
     parts = mod.parts()
     if only_part:
         parts = [p for p in parts if p.name == only_part]
+    if replay_inner:
+        return do_replay(mod, parts, replay_inner, inner=True)
     if replay:
         return do_replay(mod, parts, replay)
 
@@ -377,16 +505,21 @@ def run_check(mod, tier="quick", seed=1, replay=None, only_part=None):
         per = -(-n // shards)
         for s in range(shards):
             jobs.append((mod.__name__, p.name, per, seed, s, shards, tier))
-    ctx = get_context("fork")
-    with ctx.Pool(min(ncpu, len(jobs))) as pool:
-        results = pool.map(_run_shard, jobs, chunksize=1)
+    results = _run_jobs(jobs, ncpu)
 
     errors = [r for r in results if r.get("error")]
     if errors:
         sys.stdout.write("HARNESS-ERROR property=%s\n%s\n" % (prop, errors[0]["error"]))
         return 2
 
+    hangs = [r["hang"] for r in results if r.get("hang")]
+    results = [r for r in results if not r.get("hang") and not r.get("hang_dup")]
     by_part = {}
+    for p in parts:
+        by_part.setdefault(
+            p.name,
+            {"evals": 0, "skipped": 0, "nontrivial": set(), "classes": {}, "samples": [], "failures": {}, "excluded": {}},
+        )
     for r in results:
         a = by_part.setdefault(
             r["part"],
@@ -452,12 +585,24 @@ def run_check(mod, tier="quick", seed=1, replay=None, only_part=None):
             nviol += 1
             rc = 1
 
+    seen_h = set()
+    for h in hangs:
+        if h["signature"] in seen_h:
+            continue
+        seen_h.add(h["signature"])
+        path = write_replay(prop, h["part"], h["signature"], h["case"], h["detail"])
+        print(f"VIOLATION property={prop} replay={path}")
+        print(f"  signature: {h['signature']}")
+        print(f"  detail: {h['detail']}")
+        nviol += 1
+        rc = 1
+
     # vacuity guard
     vac = []
     for p in parts:
         a = by_part[p.name]
         eff = a["evals"] - a["skipped"]
-        if p.min_nontrivial and eff > 0 and len(a["nontrivial"]) < p.min_nontrivial * eff and not a["failures"]:
+        if p.min_nontrivial and eff > 0 and len(a["nontrivial"]) < p.min_nontrivial * eff and not a["failures"] and not hangs:
             vac.append(f"{p.name}: {len(a['nontrivial'])} distinct non-trivial of {eff}")
     write_evidence(mod, tier, seed, by_part, parts, nviol, known_lines, time.time() - t0)
     if vac and rc == 0:
@@ -515,7 +660,20 @@ def write_replay(prop, part, sig, case, detail):
     return os.path.relpath(path, VERIF_DIR)
 
 
-def do_replay(mod, parts, path):
+def do_replay(mod, parts, path, inner=False):
+    if not inner:
+        import subprocess
+
+        try:
+            r = subprocess.run([sys.executable, "-m", "vlib.run", mod.PROPERTY, "--replay-inner", path], cwd=VERIF_DIR, timeout=CONFIRM_WALL + 60, capture_output=True, text=True)
+        except subprocess.TimeoutExpired:
+            print(f"VIOLATION property={mod.PROPERTY} replay={path}")
+            print(f"  signature: nontermination-wallclock (did not finish within {CONFIRM_WALL + 60:.0f} s)")
+            return 1
+        sys.stdout.write(r.stdout)
+        if r.returncode not in (0, 1):
+            sys.stdout.write(r.stderr[-3000:])
+        return r.returncode
     with open(path if os.path.isabs(path) else os.path.join(VERIF_DIR, path)) as f:
         body = json.load(f)
     p = [q for q in mod.parts() if q.name == body["part"]][0]
